@@ -81,6 +81,8 @@ def run(ctx, scratch):
                     opts.setdefault('params', {})['random_state'] = 7
                     if base_name(name) in ('Louvain', 'Leiden', 'LouvainHierarchy', 'LouvainIteration', 'LouvainEmbedding'):
                         opts['params']['shuffle_nodes'] = rng.random() < 0.5
+                if name == 'GNNClassifier':
+                    opts = cases.gnn_opts(rng, nr)
                 if name == 'get_dag':
                     opts['order'] = [rng.randint(-1, 3) for _ in range(nr)]
                 unit = all(e[2] == 1 for e in spec['coo'])
